@@ -176,7 +176,7 @@ class OsuMapMeta(
             "",
             "[General]",
             f"AudioFilename: {self.audio_file_name}",
-            f"AudioLeadIn: {self.audio_lead_in:g}",
+            f"AudioLeadIn: {int(self.audio_lead_in)}",
             f"PreviewTime: {int(self.preview_time)}",
             f"Countdown: {int(self.countdown)}",
             f"SampleSet: {OsuSampleSet.to_string(self.sample_set)}",
